@@ -176,9 +176,11 @@ const SIBLINGS: [&str; 14] = ["reports/q1.txt", "reports.txt", "reports-old/q1.t
 pub fn flag_sets() -> Vec<Vec<&'static str>> {
     vec![vec![], vec!["--delete"], vec!["--delete", "--exclude", "*.log"], vec!["--exclude", "sub dir"], vec!["--delete", "-j", "4"]]
 }
-/// one direction, one flag set; None = the destination is exactly what the plan says
-pub fn delivers_plan(dir: &str, fi: usize) -> Option<String> {
-    let env = Env::new(&format!("plan{dir}{fi}"))?;
+type Stamp = BTreeMap<String, (Vec<u8>, u64)>;
+struct PlanCase { sr: PathBuf, dr: PathBuf, flags: Vec<&'static str>, s0: Stamp, d0: Stamp, want: Stamp }
+fn stamp_of(r: &Path) -> Stamp { tree(r).into_iter().map(|(p, b)| { let m = std::fs::metadata(r.join(&p)).and_then(|m| m.modified()).ok().and_then(|t| t.duration_since(std::time::UNIX_EPOCH).ok()).map(|d| d.as_secs()).unwrap_or(0); (p, (b, m)) }).collect() }
+/// the C04 tree (awkward names, four destination states, sibling names, stale files) and the plan the property gives for it
+fn plan_case(env: &Env, fi: usize) -> Option<PlanCase> {
     let (sr, dr) = (env.dir.join("src"), env.dir.join("dst"));
     let t0 = 1_650_000_000u64;
     // every mtime ends just before the next second (.999999999): whole-second truncation must not round it up
@@ -201,13 +203,71 @@ pub fn delivers_plan(dir: &str, fi: usize) -> Option<String> {
     let flags = flag_sets()[fi.min(flag_sets().len() - 1)].clone();
     let excludes: Vec<String> = flags.iter().enumerate().filter(|(i, _)| *i > 0 && flags[i - 1] == "--exclude").map(|(_, x)| x.to_string()).collect();
     let delete = flags.contains(&"--delete");
-    let stamp = |r: &Path| -> BTreeMap<String, (Vec<u8>, u64)> { tree(r).into_iter().map(|(p, b)| { let m = std::fs::metadata(r.join(&p)).and_then(|m| m.modified()).ok().and_then(|t| t.duration_since(std::time::UNIX_EPOCH).ok()).map(|d| d.as_secs()).unwrap_or(0); (p, (b, m)) }).collect() };
-    let (s0, d0) = (stamp(&sr), stamp(&dr));
+    let (s0, d0) = (stamp_of(&sr), stamp_of(&dr));
     // the plan, from the property statement (exclusion by the real, proved, is_excluded)
     let ex = |p: &str| crate::plan::is_excluded(Path::new(p), &excludes);
     let mut want = d0.clone();
     for (p, (b, m)) in &s0 { if ex(p) { continue; } let send = match d0.get(p) { None => true, Some((b2, m2)) => b2.len() != b.len() || m2 != m }; if send { want.insert(p.clone(), (b.clone(), *m)); } }
     if delete { for p in d0.keys() { if !s0.contains_key(p) && !ex(p) { want.remove(p); } } }
+    Some(PlanCase { sr, dr, flags, s0, d0, want })
+}
+fn dirs_of(r: &Path) -> Vec<String> {
+    fn walk(root: &Path, d: &Path, out: &mut Vec<String>) { if let Ok(rd) = std::fs::read_dir(d) { for e in rd.flatten() { let p = e.path(); if p.is_dir() { out.push(p.strip_prefix(root).map(|x| x.to_string_lossy().into_owned()).unwrap_or_default()); walk(root, &p, out); } } } }
+    let mut v = vec![]; walk(r, r, &mut v); v.sort(); v
+}
+/// C15: `sync -r --dry-run` changes no file, no mtime, no directory on either side, and prints exactly the planned actions:
+/// every path a real run from this state sends or deletes is named on a line of its own, no other path of either tree is.
+/// (Format-agnostic: a path counts as printed if stdout holds `<blank><path><newline>`.)
+pub fn dry_run_is_inert(dir: &str, fi: usize) -> Option<String> {
+    let env = Env::new(&format!("dry{dir}{fi}"))?;
+    let pc = plan_case(&env, fi)?;
+    let (sr, dr, flags) = (&pc.sr, &pc.dr, &pc.flags);
+    let (dirs_s, dirs_d) = (dirs_of(sr), dirs_of(dr));
+    let cwd = env.dir.join("cwd"); std::fs::create_dir_all(&cwd).ok()?; std::fs::write(cwd.join("line"), b"bystander").ok()?;
+    let b = std::env::var("COPIA_BIN").unwrap_or_default();
+    let mut args: Vec<String> = vec!["sync".into(), "-r".into(), "--dry-run".into()];
+    args.extend(flags.iter().map(|x| x.to_string()));
+    let (ss, ds) = (sr.to_string_lossy().into_owned(), dr.to_string_lossy().into_owned());
+    match dir { "pull" => { args.push(format!("fakehost:{ss}")); args.push(ds); } "push" => { args.push(ss); args.push(format!("fakehost:{ds}")); } _ => { args.push(ss); args.push(ds); } }
+    let out = Command::new(b).args(&args).current_dir(&cwd).env("PATH", env.path_env()).env("RUST_BACKTRACE", "0").output().ok()?;
+    let tag = format!("[{dir} --dry-run, flags {flags:?}]");
+    let shown = |p: &str| p.replace('\\', "/BACKSLASH/").replace('\n', "<LF>").replace('\t', "<TAB>");
+    let (s1, d1) = (stamp_of(sr), stamp_of(dr));
+    if s1 != pc.s0 { return Some(format!("{tag} the source tree was modified (C15)")); }
+    if d1 != pc.d0 { let p = d1.keys().chain(pc.d0.keys()).find(|p| d1.get(*p) != pc.d0.get(*p)).cloned().unwrap_or_default(); return Some(format!("{tag} the destination was modified by a dry run: `{}` (bytes or mtime changed, created or removed) (C15)", shown(&p))); }
+    if dirs_of(sr) != dirs_s || dirs_of(dr) != dirs_d { return Some(format!("{tag} a dry run created or removed a directory (C15)")); }
+    if std::fs::read(cwd.join("line")).ok().as_deref() != Some(b"bystander") { return Some(format!("{tag} a dry run touched a file in the working directory (C15)")); }
+    if out.status.code() != Some(0) { return None; }       // a dry run may fail (it reported an error); it printed no plan to compare
+    let so = format!("\n{}", String::from_utf8_lossy(&out.stdout));
+    let printed = |p: &str| so.contains(&format!(" {p}\n")) || so.contains(&format!("\t{p}\n")) || so.contains(&format!("\n{p}\n"));
+    let all: std::collections::BTreeSet<&String> = pc.s0.keys().chain(pc.d0.keys()).collect();
+    for p in all {
+        let action = pc.want.get(p) != pc.d0.get(p);
+        if action && !printed(p) { return Some(format!("{tag} a real run from this state {} `{}`, the dry run does not print it (C15)", if pc.want.contains_key(p) { "sends" } else { "deletes" }, shown(p))); }
+        if !action && printed(p) { return Some(format!("{tag} the dry run prints `{}` as an action; a real run from this state neither sends nor deletes it (C15)", shown(p))); }
+    }
+    None
+}
+pub fn dry_search(as_twin: bool) -> i32 {
+    if std::env::var("COPIA_BIN").unwrap_or_default().is_empty() { eprintln!("COPIA_BIN not set"); if as_twin { println!("CASES 0"); } return 0; }
+    let mut cases = 0;
+    for (di, dir) in DIRS.iter().enumerate() { for fi in 0..flag_sets().len() {
+        cases += 1;
+        if let Some(what) = dry_run_is_inert(dir, fi) { println!("WITNESS {{\"kind\":\"oneway-dry\",\"dir\":{di},\"flags\":{fi},\"what\":\"{}\"}}", what.replace('"', "'").replace('\n', " ")); }
+    } }
+    if as_twin { println!("CASES {cases}"); }
+    0
+}
+pub fn run_dry(w: &str) -> i32 {
+    let dir = DIRS[(json_u64(w, "dir").unwrap_or(0) as usize).min(2)]; let fi = json_u64(w, "flags").unwrap_or(0) as usize;
+    match dry_run_is_inert(dir, fi) { Some(what) => { println!("REPRODUCED: {what}"); 1 } None => { println!("not reproduced: direction {dir}, flag set {fi}: the dry run changes nothing and prints exactly the plan"); 0 } }
+}
+/// one direction, one flag set; None = the destination is exactly what the plan says
+pub fn delivers_plan(dir: &str, fi: usize) -> Option<String> {
+    let env = Env::new(&format!("plan{dir}{fi}"))?;
+    let pc = plan_case(&env, fi)?;
+    let (sr, dr, flags, s0, d0, want) = (pc.sr.clone(), pc.dr.clone(), pc.flags.clone(), pc.s0.clone(), pc.d0.clone(), pc.want.clone());
+    let stamp = |r: &Path| stamp_of(r);
     // run it, from a working directory that holds an innocent bystander
     let cwd = env.dir.join("cwd"); std::fs::create_dir_all(&cwd).ok()?; std::fs::write(cwd.join("line"), b"bystander").ok()?; std::fs::write(cwd.join("stale.txt"), b"bystander").ok()?;
     let b = std::env::var("COPIA_BIN").unwrap_or_default();
